@@ -63,6 +63,7 @@ type EventOpts struct {
 	SafeIndexedSel bool // no unselected indexed input before a selected indexed one
 	AllSelected    bool
 	MinSelected    int
+	NoBoolArray    bool // avoid bool[] (open C11 finding: array element type mapping)
 }
 
 // Event generates an event and marks selected inputs with column names.
@@ -85,6 +86,9 @@ func (g *G) Event(name string, o EventOpts) *model.Event {
 			in.Type = g.pick([]string{"bytes", "string"})
 		case kind < 9 && o.AllowArray && !usedArray:
 			el := g.pick(staticTypes)
+			for o.NoBoolArray && el == "bool" {
+				el = g.pick(staticTypes)
+			}
 			if g.chance(50) {
 				in.Type = el + "[]"
 			} else {
@@ -366,7 +370,7 @@ func GenC01(seed uint64) *Plan {
 			start = 0
 		}
 		o := DeclOpts{Mode: mode, MaxFields: 4, Addrs: p.Content.Addrs, AddrFilter: g.chance(40),
-			Event: EventOpts{MaxInputs: 5, AllowDynamic: true, AllowArray: true, AllowTuple: true, SafeIndexedSel: true}}
+			Event: EventOpts{MaxInputs: 5, AllowDynamic: true, AllowArray: true, AllowTuple: true, SafeIndexedSel: true, NoBoolArray: true}}
 		switch mode {
 		case model.ModeLog:
 			o.Fields = logSafeFields
